@@ -45,6 +45,7 @@ type CallsiteSpec struct {
 
 type Contract struct {
 	Pkg       string // package path
+	SpecPkg   string // package whose scope contract expressions are resolved in (extern)
 	Key       string // pkgpath.(Recv).Name or pkgpath.Name
 	RecvName  string
 	RecvType  string // as written, e.g. *Bytes
@@ -125,7 +126,7 @@ func newContractSet() *ContractSet {
 }
 
 var clauseKeywords = map[string]bool{
-	"func": true, "interface": true, "type": true, "ghost": true, "spec": true, "lemma": true, "syncmap": true,
+	"func": true, "interface": true, "extern": true, "type": true, "ghost": true, "spec": true, "lemma": true, "syncmap": true,
 	"props": true, "requires": true, "ensures": true, "modifies": true, "nopanic": true, "maypanic": true,
 	"inline": true, "assumed": true, "pure": true, "use": true, "deterministic": true, "noworld": true, "loop": true, "range": true, "callsite": true, "decreases": true,
 }
@@ -172,8 +173,26 @@ func (cs *ContractSet) parseFile(path, pkgPath string) error {
 		rest := strings.TrimSpace(strings.TrimPrefix(l, kw))
 		fail := func(e error) error { return fmt.Errorf("%s: %v\n   in: %s", where, e, l) }
 		switch kw {
-		case "func", "interface":
-			c, err := parseFuncLine(kw, rest, pkgPath)
+		case "func", "interface", "extern":
+			cpkg := pkgPath
+			if kw == "extern" {
+				// extern <pkgpath>.<Func>(params) (results): assumed contract of a function outside the repository
+				j := strings.Index(rest, "(")
+				i := strings.LastIndex(rest[:j], ".")
+				if i < 0 {
+					return fail(fmt.Errorf("extern expects pkgpath.Func(...)"))
+				}
+				cpkg, rest = rest[:i], rest[i+1:]
+			}
+			k2 := kw
+			if kw == "extern" {
+				k2 = "func"
+			}
+			c, err := parseFuncLine(k2, rest, cpkg)
+			if err == nil && kw == "extern" {
+				c.Assumed = "external function"
+				c.SpecPkg = pkgPath
+			}
 			if err != nil {
 				return fail(err)
 			}
